@@ -237,7 +237,8 @@ func HarnessC14Serve() {
 		vAssert(t.closed || t.down, "c14:served-connection-is-closed-at-the-end")
 		if se.hFailed {
 			vReach("c20:handler-failed-while-serving")
-			vAssert(vhCount(t.calls, "send:finished") == 1 || t.down, "c20:handler-error-finishes-the-session")
+			// (unless the client vanished in the meantime: then there is nobody to tell)
+			vAssert(vhCount(t.calls, "send:finished") == 1 || t.down || t.rxErrs > 0, "c20:handler-error-finishes-the-session")
 		}
 	}
 	vAssert(vThreadsLive() <= 0, "c14:no-goroutine-left-serving-the-connection")
